@@ -64,4 +64,11 @@ theorem nodup_getElem?_inj {α} (l : List α) (hn : l.Nodup) (i j : Nat) (a : α
         simp at hi hj
         rw [ih hnt.2 i' j' hi hj]
 
+/-- an invariant of every step holds after every schedule -/
+theorem foldl_inv {σ} (P : σ → Prop) (f : σ → Nat → σ) (hstep : ∀ s t, P s → P (f s t)) (sched : List Nat) (s : σ) (h : P s) :
+    P (sched.foldl f s) := by
+  induction sched generalizing s with
+  | nil => exact h
+  | cons t r ih => exact ih _ (hstep s t h)
+
 end ParsecVerif.FutureL
